@@ -16,6 +16,7 @@
 import Hw.Io.SyntheticTopo
 import Hw.Io.SyntheticDump
 import Hw.Io.SyntheticWFAll
+import Hw.Io.SyntheticWF15
 import Hw.Io.SyntheticFix
 import Hw.Topo.WF
 import Driver.Topo
@@ -241,9 +242,9 @@ def step (u : Unit) (line : String) : Unit × String :=
                   -- `topoOK`: the side condition of the general well-formedness theorems (Hw.Io.SyntheticWF, C07_build_wf_*):
                   -- every topology the model builds and hwloc agrees with must satisfy it
                   if !mv.isEmpty then (u, "load MODEL-WF-FAIL " ++ ",".intercalate (mv.take 4))
-                  else if !topoOK t || !puOK t || !memOK t || !numaOK t then
+                  else if !topoOK t || !puOK t || !memOK t || !numaOK t || !sibOK t then
                     (u, "load HYP-FAIL" ++ (if topoOK t then "" else " topoOK") ++ (if puOK t then "" else " puOK") ++
-                      (if memOK t then "" else " memOK") ++ (if numaOK t then "" else " numaOK"))
+                      (if memOK t then "" else " memOK") ++ (if numaOK t then "" else " numaOK") ++ (if sibOK t then "" else " sibOK"))
                   else (u, "load ok regular")
               else
                 let what := if a.levels != t.levels then "levels" else if a.rootMem != t.rootMem then "rootmem"
